@@ -36,6 +36,34 @@ def collect_bad(results, offsets):
     return bad, err
 
 
+def _model_bytes(ir, g):
+    return ir.to_proto(ir.Model(g, ir_version=10)).SerializeToString()
+
+
+def _ort_outputs(model_bytes, seed):
+    """outputs of a (crafted, runnable) model in onnxruntime on a deterministic random feed; None when it does not run"""
+    import onnx
+    import onnxruntime as ort
+    ort.set_default_logger_severity(3)
+    m = onnx.load_from_string(model_bytes)
+    r = np.random.RandomState(seed)
+    feed = {}
+    for i in m.graph.input:
+        if i.name in {t.name for t in m.graph.initializer}:
+            continue
+        shp = [d.dim_value for d in i.type.tensor_type.shape.dim]
+        feed[i.name] = np.asarray(r.rand(*shp) - 0.5, np.float32)
+    try:
+        return ort.InferenceSession(model_bytes, providers=["CPUExecutionProvider"]).run(None, feed)
+    except Exception as e:
+        return repr(e)[:200]
+
+
+def _same_outputs(a, b):
+    return (isinstance(a, list) and isinstance(b, list) and len(a) == len(b)
+            and all(x.shape == y.shape and np.allclose(x, y, equal_nan=True) for x, y in zip(a, b)))
+
+
 # ------------------------------------------------------------------ dump (encoding documented in ReshapePairPass.v)
 def _op(n):
     dom = getattr(n, "domain", "") or ""
@@ -342,6 +370,7 @@ def tie_reshape_pair_pass(ctx, n_cases):
     import collections
     stats = collections.Counter()
     rows = []
+    ort_bad = []
     for c in range(n_cases):
         b, g = _rank_defect_graph(ir, rng, c) if c < 32 else _rand_reshape_graph(ir, rng, stats)
         table = {}
@@ -351,8 +380,14 @@ def tie_reshape_pair_pass(ctx, n_cases):
         known = {v.name for v in b.inputs + b.consts + b.vals}
         before = dump(ir, g, intern, known)
         shapes, scalars, cranks = _annotations(ir, opt, b, intern)
+        ort_before = _ort_outputs(_model_bytes(ir, g), c) if c < 32 else None
         opt.remove_redundant_reshape_pairs_ir(g)
         after = dump(ir, g, intern, known)
+        if c < 32:
+            ort_after = _ort_outputs(_model_bytes(ir, g), c)
+            if not _same_outputs(ort_before, ort_after):
+                ort_bad.append((c, str([getattr(x, "shape", x) for x in (ort_before if isinstance(ort_before, list) else [ort_before])]),
+                                str([getattr(x, "shape", x) for x in (ort_after if isinstance(ort_after, list) else [ort_after])])))
         shapes_after, _, _ = _annotations(ir, opt, b, intern)
         removed = len(before[0]) - len(after[0])
         stats["graphs_rewritten"] += int(removed > 0)
@@ -384,6 +419,12 @@ Definition chk (c : pgraph * (list node * list nat) * list (nat * list dim)) : b
                f"{stats['graphs_rewritten']} rewritten, {stats['nodes_removed']} nodes removed, {stats['shapes_refreshed']} shapes refreshed)",
                err is None and bad == [], "tie",
                err if err is not None else f"model and implementation differ on cases {bad[:6]}: {[rows[i][:2] for i in bad[:2]]}")
+    ctx.oblige("tie:remove_redundant_reshape_pairs_ir on the 32 rank-guard graphs (Max/Min with a one-element constant of rank 0..3): "
+               "onnxruntime outputs (shapes and values) are the same before and after the real pass", not ort_bad, "tie",
+               f"outputs differ: {ort_bad[:3]}")
+    for c, sb, sa in ort_bad:
+        ctx.violate("remove_redundant_reshape_pairs_ir:rank-guard", f"the real pass changes the model's outputs on rank-guard graph {c}: before {sb} after {sa}",
+                    {"tie": "reshape_pair", "case": c, "seed": ctx.seed})
     ctx.coverage["reshape_pair_tie"] = dict(stats)
     return rows, bad
 
@@ -543,6 +584,20 @@ def _rand_transpose_graph(ir, rng, stats):
     return b, b.graph(outs)
 
 
+def _self_inverse_forest_graph(ir, rng, i):
+    """a = T[p](x); s = Relu(a); u = T[p](s); m = Add(s, u); y = T[p](m) with a self-inverse p: u is both an input and an
+    output transpose of the forest (the real pass removed it twice: .scratch/c02p/defect_transpose_forest_double_remove.py)"""
+    b = _Builder(ir, rng)
+    p = [[1, 0], [0, 1], [0, 2, 1]][i % 3]
+    x = b.inp((2, 2, 2)[: len(p)])
+    a = _tnode(b, ir, x, p)
+    s = b.node("Relu", [a], None)
+    u = _tnode(b, ir, s, p)
+    m = b.node(["Add", "Mul"][(i // 3) % 2], [s, u] if i % 2 else [u, s], None)
+    y = _tnode(b, ir, m, p)
+    return b, b.graph([y])
+
+
 _KINDS = ["add_chain", "forest", "dag_direct_pair", "dag_with_elementwise", "chain_direct_pair", "chain_with_elementwise", "multi_consumer"]
 
 
@@ -555,8 +610,9 @@ def tie_transpose_pair_pass(ctx, n_cases):
     stats = collections.Counter()
     rows = []
     crashes = []
+    ort_bad = []
     for c in range(n_cases):
-        b, g = _rand_transpose_graph(ir, rng, stats)
+        b, g = _self_inverse_forest_graph(ir, rng, c) if c < 6 else _rand_transpose_graph(ir, rng, stats)
         table = {}
 
         def intern(name):
@@ -564,12 +620,22 @@ def tie_transpose_pair_pass(ctx, n_cases):
         known = {v.name for v in b.inputs + b.consts + b.vals}
         before = dump(ir, g, intern, known)
         scalars = {intern(v.name): True for v in b.inputs + b.consts + b.vals if opt._is_scalar_const_value(v)}
+        ort_before = _ort_outputs(_model_bytes(ir, g), c) if c < 6 else None
         try:
             opt.remove_redundant_transpose_pairs_ir(g)
-        except Exception as e:      # an exception of the real pass is not a disagreement of the model: reported separately
+        except Exception as e:      # an exception of the real pass is a finding of its own, not a disagreement with the model
             crashes.append((c, repr(e)[:200], before))
+            msg = str(e)
+            tag = "does not belong to this graph" if "does not belong to this graph" in msg else type(e).__name__
+            ctx.violate(f"remove_redundant_transpose_pairs_ir:raises:{tag}",
+                        f"the real pass raised {type(e).__name__} on a graph of the transpose-pair tie (case {c}): {msg[:160]}",
+                        {"tie": "transpose_pair", "case": c, "seed": ctx.seed, "nodes": [list(map(str, n)) for n in before[0]], "outputs": before[1]})
             continue
         after = dump(ir, g, intern, known)
+        if c < 6:
+            ort_after = _ort_outputs(_model_bytes(ir, g), c)
+            if not _same_outputs(ort_before, ort_after):
+                ort_bad.append((c, str(ort_before)[:120], str(ort_after)[:120]))
         removed = len(before[0]) - len(after[0])
         stats["graphs_rewritten"] += int(before != after)
         stats["nodes_removed"] += removed
@@ -611,6 +677,12 @@ Definition kinds (l : list (tgraph * (list node * list nat))) : list nat :=
                f"{ {n: kinds[k] for k, n in enumerate(_KINDS)} })",
                err is None and bad == [], "tie",
                err if err is not None else f"model and implementation differ on cases {bad[:6]}: {[rows[i][:2] for i in bad[:2]]}")
+    ctx.oblige("tie:remove_redundant_transpose_pairs_ir on the 6 self-inverse forest graphs (a Transpose that is both an input and an "
+               "output transpose of the forest): onnxruntime outputs are the same before and after the real pass", not ort_bad, "tie",
+               f"outputs differ: {ort_bad[:3]}")
+    for c, sb, sa in ort_bad:
+        ctx.violate("remove_redundant_transpose_pairs_ir:forest-self-inverse", f"the real pass changes the model's outputs on crafted graph {c}: before {sb} after {sa}",
+                    {"tie": "transpose_pair", "case": c, "seed": ctx.seed})
     ctx.coverage["transpose_pair_tie"] = dict(stats)
     if crashes:
         ctx.coverage["transpose_pair_tie"]["raised_examples"] = [c[1] for c in crashes[:3]]
